@@ -400,6 +400,15 @@ class Ctx:
                 res = None
             if res is not None and len(res) == 1 and len(res[0]) == 1 and z3.is_false(res[0][0]):
                 r = z3.unsat
+                # differential guard for the rewriting: the plain solver on the ORIGINAL query must not find a model (short budget;
+                # an 'unknown' is the normal outcome for the queries this stage exists for)
+                self.stats.nf_unsat = getattr(self.stats, 'nf_unsat', 0) + 1
+                if self.stats.nf_unsat % GUARD_EVERY == 1 or GUARD_EVERY == 1:
+                    sg = z3.Solver(); sg.set('timeout', 1500)
+                    sg.add(*self.pc); sg.add(*extra)
+                    for d in divs: sg.add(d != 0)
+                    if sg.check() == z3.sat:
+                        raise Inconclusive('division clearing disagrees with the plain solver (rewritten query unsat, original query sat)')
             else:
                 s = z3.Solver()
                 s.set('timeout', self.cur_timeout_ms)
@@ -533,7 +542,14 @@ class Ctx:
         conj = [prop]
         if self.clear_div and z3.is_and(prop):
             # one query per conjunct: each is a single (dis)equation, which the normal-form stage decides directly
-            conj = [cj for cj in prop.children() if not z3.is_true(z3.simplify(cj))] or [prop]
+            flat = []
+            def _flatten(e):
+                if z3.is_and(e):
+                    for ch in e.children(): _flatten(ch)
+                else:
+                    flat.append(e)
+            _flatten(prop)
+            conj = [cj for cj in flat if not z3.is_true(z3.simplify(cj))] or [prop]
         r, m = 'unsat', None
         for cj in conj:
             rc, mc = self._discharge(z3.Not(cj))
@@ -612,6 +628,8 @@ class Ctx:
         return r == 'sat'
 
 
+import os as _os
+GUARD_EVERY = int(_os.environ.get('VERIF_GUARD_EVERY', '1' if _os.environ.get('VERIF_TIER') == 'thorough' else '12'))
 _PORTFOLIO_FIRST = z3.Then('simplify', 'solve-eqs', 'smt')
 _NORMAL_FORM = z3.Then(z3.With('simplify', som=True), 'solve-eqs', z3.With('simplify', som=True))
 
